@@ -205,7 +205,8 @@ def run(ck):
                 names[k] = 'SAME'
         return len(names) == len(flow.atoms_of(f)) and flow.equivalent(flow.rename(f, names), flow.parse_formula('not HAS or not SAME'))[0]
     fr = stmts_with_env(sub, lambda s: isinstance(s, ast.Return) and try_fold(s.value, default=1) is False)
-    ok = len(fr) == 1 and mismatch_formula(fr[0][1]) and try_fold(sub.body[-1].value, default=0) is True
+    # (one `return False` under the whole mismatch test, or one per way of not matching: the union of their conditions is what counts)
+    ok = len(fr) >= 1 and mismatch_formula(flow.OR(*[c_ for _s, c_, _e in fr])) and try_fold(sub.body[-1].value, default=0) is True
     if not ok:
         # the same decision as one expression: `not any(<mismatch> for key, val in dict1.items())` / `all(<match> for ...)`
         rets = [r for r in walk_local(sub) if isinstance(r, ast.Return)]
@@ -270,6 +271,7 @@ def run(ck):
     ck.ob('PROV-surplus', rg.loc(rgf), ok, 'an atom of the old residue that the requested block/modification does not account for is removed exactly when the residue '
           'carries a mutation or modification request', key='PROV-surplus')
     shared.reference_residue_rules(ck, 'MPT-all-requests')
+    shared.rebuilt_atom_identity(ck, 'PROV-rebuilt')
     shared.truthy_zero(ck, [AM, RG])
     shared.runs_every_molecule(ck, 'vermouth/processors/annotate_mut_mod.py', 'AnnotateMutMod', 'MPT-every-molecule')
     shared.runs_every_molecule(ck, 'vermouth/processors/repair_graph.py', 'RepairGraph', 'MPT-every-molecule')
